@@ -129,6 +129,14 @@ CHECKS.update({
             "DESIGN.md section 5 C20"),
 })
 
+CHECKS.update({
+    "C13": ("exploration",
+            "z3-String symbolic execution of is_state_variable and the two name-manager dispatchers (all strings), then bounded enumeration of concrete name sets through the real name managers (the maps hash the name, so it cannot stay symbolic)",
+            "Part A (solver): for ALL strings the persistent/per-step classification and the dispatch to name_global/name_local equal the documented rule (z3 String theory, 7-8 paths per dispatcher). Part B (exploration, said plainly): ordered pairs over a focused adversarial family and seeded random sets of 2..4 names (tags x bodies over y Y _ ^ * 0 <, long names), each mapped and looked up again: legal identifiers, pairwise distinct (Fortran: case-insensitively), not reserved, stable, right storage class. Over-long Fortran identifiers are a listed known finding.",
+            "Trusted: z3 string solver, the identifier rules stated in the assumptions, reserved identifiers harvested from a generated module.",
+            "DESIGN.md section 5 C13"),
+})
+
 NOT_APPLICABLE = {
 }
 
